@@ -44,6 +44,9 @@ def outside_spec(state):
             "x": CANARY + b" x exists outside\n",
             "1": {"f.txt": CANARY + b"\n"},
             "z.zip": worlds.make_zip([("f.txt", CANARY + b" zipped\n"), ("secret", CANARY)]),
+            "inner.zip": worlds.make_zip([("i.txt", CANARY + b" inner\n")]),
+            "secret.abstract": CANARY + b" abstract of secret\n",
+            "i.txt": CANARY + b" i\n",
             "gophermap": b"i" + CANARY + b"\tfake\t(NULL)\t0\n",
             ".names": b"Name=" + CANARY + b"\nPath=/secret\nType=0\n",
             # siblings whose names merely *start* like the root (path = root + selector)
@@ -145,6 +148,7 @@ def _requests(tier):
     else:
         plist = alphabet.paths(2, 2) + alphabet.paths(0, 3, core=[b"a", b"..", b".", b"", b"secret", b"z.zip", b"m.mbox", b"sub"])
     extra = [
+        b"/z.zip/inner.zip", b"/z.zip/inner.zip/i.txt", b"/z.zip/sub/inner.zip/i.txt", b"/z.zip/inner.zip/../secret", b"/gm2", b"/gm2/", b"/1/gm2",
         b"/z.zip/m.mbox", b"/z.zip/../secret", b"/z.zip/sub/../../secret", b"/z.zip/secret", b"/z.zip/s.sh", b"/z.zip/p.pyg", b"/z.zip/md",
         b"/m.mbox|/MBOX-MESSAGE/1", b"/../m.mbox|/MBOX-MESSAGE/1", b"/../md|/MAILDIR-MESSAGE/1", b"/secret|/MBOX-MESSAGE/1",
         b"/a/../../secret", b"/a/..\\..\\secret", b"/a\\..\\..\\secret", b"/..%2fsecret", b"/%2e%2e/secret", b"/1/../secret", b"/1/1/../secret",
@@ -185,7 +189,13 @@ class _Env:
         self.base = rig.fresh_dir("c01")
         self.root = os.path.join(self.base, "site", "root")
         os.makedirs(os.path.join(self.base, "sib"))
-        rig.build_tree(self.root, worlds.standard_spec(full=True))
+        spec = worlds.standard_spec(full=True)
+        inner = worlds.make_zip([("i.txt", b"inner member\n")])
+        spec["z.zip"] = worlds.make_zip([("f.txt", b"zip member f\n"), ("sub/g.txt", b"zip member g\n"), ("m.mbox", worlds.MBOX), ("inner.zip", inner), ("sub/inner.zip", inner)])
+        # content that points outside: link targets the selector filter would refuse
+        spec["gm2"] = {"gophermap": b"0Up\t/../secret\n0Rel\t../secret\n1Dir\t/../\n0Dots\t/a/../../secret\n0Bs\t/..\\secret\n"}
+        spec[".links"] = b"Name=Climb\nType=0\nPath=../secret\n\nName=Climb2\nType=0\nPath=/../secret\n"
+        rig.build_tree(self.root, spec)
         self.world = rig.World(handlers=handlers, root=self.root, tag="c01cfg")
         self.cwd = {"parent": os.path.join(self.base, "site"), "sibling": os.path.join(self.base, "sib"), "slash": "/"}[cwdname]
         self.state = None
@@ -270,7 +280,7 @@ def _shard(shard, seed, tier):
     try:
         # warm-up: one request per handler kind so one-time imports do not pollute the log
         env.set_state("A")
-        for sel in (b"/", b"/f.txt", b"/z.zip/sub", b"/m.mbox", b"/md", b"/s.sh", b"/p.pyg", b"/t.html.tal", b"/c.txt.gz", b"/h.html", b"/gm", b"/m.mbox|/MBOX-MESSAGE/1", b"/md|/MAILDIR-MESSAGE/1", b"URL:http://x/"):
+        for sel in (b"/", b"/f.txt", b"/z.zip/sub", b"/z.zip/inner.zip/i.txt", b"/gm2", b"/m.mbox", b"/md", b"/s.sh", b"/p.pyg", b"/t.html.tal", b"/c.txt.gz", b"/h.html", b"/gm", b"/m.mbox|/MBOX-MESSAGE/1", b"/md|/MAILDIR-MESSAGE/1", b"URL:http://x/"):
             for proto in ("gopher", "gopherp_dir", "http", "wap", "gemini", "spartan"):
                 d, t = rig.request(proto, sel)
                 _serve_monitored(env, d, t)
